@@ -280,10 +280,10 @@ func c15Rules(p *core.Prog, r *core.Run) {
 				r.Check("C15.GUARDS", "emit:Target.Address", addrV != nil && v.String() == addrV.String(), p.InstrPos(st), "the yielded address is the filtered, de-duplicated one")
 			case "ECH":
 				tgt++
-				r.Check("C15.PAIR", "emit:Target.ECH", v.Op == "param" && v.Name == "c2", p.InstrPos(st), "Target.ECH is the helper's ech argument")
+				r.Check("C15.PAIR", "emit:Target.ECH", v.Op == "param" && v.Name == "cc2", p.InstrPos(st), "Target.ECH is the helper's ech argument")
 			case "ALPN":
 				tgt++
-				r.Check("C15.PAIR", "emit:Target.ALPN", v.Op == "param" && v.Name == "c3", p.InstrPos(st), "Target.ALPN is the helper's alpn argument")
+				r.Check("C15.PAIR", "emit:Target.ALPN", v.Op == "param" && v.Name == "cc3", p.InstrPos(st), "Target.ALPN is the helper's alpn argument")
 			}
 		}
 	}
